@@ -171,11 +171,30 @@ func VerifC09_SeveralOffendingRules() {
 		text += ", " + r
 	}
 	text += "}"
+	if zzverif.Bool("integerWithStringRules") {
+		// an integer carrying string rules: refused later, by the checker
+		text = "1 // {" + rules[0]
+		for _, r := range rules[1:] {
+			text += ", " + r
+		}
+		text += "}"
+	}
+	// the offending node stands in the schema itself, or is inherited through
+	// allOf (the compiler copies the inherited properties with their rules)
+	inherited := zzverif.Bool("inherited")
+	mk := func() *JSchema {
+		if !inherited {
+			return New("s", text)
+		}
+		r := New("s", "{ // {allOf: \"@p\"}\n  \"own\": 1\n}")
+		_ = r.AddType("@p", New("@p", "{\n  \"a\": "+text+"\n}"))
+		return r
+	}
 	other := zzverif.IntRange("order", 1, 3)
 	zzverif.SetMapOrder(0)
-	o1 := dObserve(New("s", text))
+	o1 := dObserve(mk())
 	zzverif.SetMapOrder(other)
-	o2 := dObserve(New("s", text))
+	o2 := dObserve(mk())
 	zzverif.SetMapOrder(0)
 	zzverif.Assert(dSame(o1, o2), "same diagnostic under every map iteration order")
 	if o1.code != 0 {
